@@ -170,7 +170,35 @@ where
   G: Fn(&mut Src) -> C + Sync,
   T: Fn(&C, &mut Stats) -> Result<(), Violation> + Sync,
 {
-  let results: Vec<(Stats, Option<Failure<C>>)> = par_map(cfg.threads, shards, |shard| {
+  let results: Vec<(Stats, Option<Failure<C>>)> = par_map(cfg.threads, shards, |shard| run_prop_shard(cfg, label, shard, cases_per_shard, tape_min, tape_max, max_shrink_iters, &gen, &test));
+  let mut total = Stats::new();
+  let mut first: Option<Failure<C>> = None;
+  for (st, f) in results {
+    total.merge(st);
+    if first.is_none() {
+      first = f;
+    }
+  }
+  (total, first)
+}
+
+
+// One shard on the current thread.
+pub fn run_prop_shard<C, G, T>(
+  cfg: &RunCfg,
+  label: &str,
+  shard: usize,
+  cases_per_shard: u32,
+  tape_min: usize,
+  tape_max: usize,
+  max_shrink_iters: u32,
+  gen: G,
+  test: T,
+) -> (Stats, Option<Failure<C>>)
+where
+  G: Fn(&mut Src) -> C,
+  T: Fn(&C, &mut Stats) -> Result<(), Violation>,
+{
     let seed = seed32(cfg.seed, label, shard as u64);
     let mut config = Config::default();
     config.cases = cases_per_shard;
@@ -220,16 +248,6 @@ where
       }
     };
     (stats.into_inner(), failure)
-  });
-  let mut total = Stats::new();
-  let mut first: Option<Failure<C>> = None;
-  for (st, f) in results {
-    total.merge(st);
-    if first.is_none() {
-      first = f;
-    }
-  }
-  (total, first)
 }
 
 // The test closures may panic when the code under test panics; proptest catches that during
